@@ -570,6 +570,7 @@ type State struct {
 	epochN    int
 	rec       *dryRun
 	lastLock  *HeapSnap
+	guarded   int
 	epochAlloc *HeapVer // allocation set when the current epoch's base heaps came into being
 	frameBase map[string]*HeapVer // guarded families: frame is relative to the value at lock acquisition
 	heldEntry map[string]bool
@@ -680,9 +681,9 @@ func (st *State) heap(fam string, dims []Sort, elem Sort) *HeapVer {
 		al := st.epochAlloc.Name
 		switch len(dims) {
 		case 1:
-			st.asserts = append(st.asserts, fmt.Sprintf("(forall ((r Int)) (! (or (= (select %s r) 0) (select %s (select %s r))) :pattern ((select %s r))))", h.Name, al, h.Name, h.Name))
+			st.asserts = append(st.asserts, fmt.Sprintf("(forall ((r Int)) (! (=> (select %s r) (or (= (select %s r) 0) (select %s (select %s r)))) :pattern ((select %s r))))", al, h.Name, al, h.Name, h.Name))
 		case 2:
-			st.asserts = append(st.asserts, fmt.Sprintf("(forall ((r Int) (k %s)) (! (or (= (select (select %s r) k) 0) (select %s (select (select %s r) k))) :pattern ((select (select %s r) k))))", dims[1], h.Name, al, h.Name, h.Name))
+			st.asserts = append(st.asserts, fmt.Sprintf("(forall ((r Int) (k %s)) (! (=> (select %s r) (or (= (select (select %s r) k) 0) (select %s (select (select %s r) k)))) :pattern ((select (select %s r) k))))", dims[1], al, h.Name, al, h.Name, h.Name))
 		}
 	}
 	return h
@@ -771,7 +772,32 @@ func (st *State) resolve(a Addr) (root string, path string, idx []Term, dims []S
 	panic("resolve")
 }
 
+// derefOK: execution continues past a dereference only if the pointer is not nil (a nil dereference
+// panics and ends the path; nil-dereference freedom itself is not an obligation of this engine).
+func (st *State) derefOK(a Addr) {
+	if st.guarded > 0 {
+		return // conditional (guarded) access inside a library model
+	}
+	for {
+		switch x := a.(type) {
+		case FldAddr:
+			a = x.Base
+			continue
+		case ObjAddr:
+			if _, lit := isIntLit(x.Ref); !lit {
+				key := "nn:" + x.Ref.S
+				if st.ghost[key].S == "" {
+					st.ghost[key] = TTrue
+					st.assume(Not(Eq(x.Ref, IntLit(0))))
+				}
+			}
+		}
+		return
+	}
+}
+
 func (st *State) loadAt(a Addr, t types.Type) Val {
+	st.derefOK(a)
 	if g, ok := a.(GlobAddr); ok && theEngine != nil {
 		if v, ok := theEngine.immutableGlobal(g.G); ok {
 			return v
@@ -793,6 +819,7 @@ func (st *State) loadAt(a Addr, t types.Type) Val {
 }
 
 func (st *State) storeAt(a Addr, t types.Type, v Val) {
+	st.derefOK(a)
 	root, path, idx, dims := st.resolve(a)
 	ls := st.flatten(v)
 	lv := leavesOf(t)
